@@ -504,6 +504,155 @@ theorem divStep_run (F : GF.GF) (other : Poly) (inv : Nat) (D : ρ) : ∀ (m : N
     · simp only [hc, if_false]
       rfl
 
+/-! ### the double loop of `GenericGFPoly.Multiply` on model states -/
+
+theorem mapM_length {f : Nat → Res Nat} : ∀ (l ms : List Nat), l.mapM f = .ok ms → ms.length = l.length := by
+  intro l
+  induction l with
+  | nil => intro ms h; simp [pure, Except.pure] at h; subst h; rfl
+  | cons x xs ih =>
+    intro ms h
+    rw [List.mapM_cons] at h
+    simp only [bind, Except.bind] at h
+    cases hx : f x with
+    | error e => simp only [hx] at h; cases h
+    | ok m =>
+      simp only [hx] at h
+      cases hxs : xs.mapM f with
+      | error e => simp only [hxs] at h; cases h
+      | ok ms' =>
+        simp only [hxs, pure, Except.pure] at h
+        cases h
+        simp [ih ms' hxs]
+
+theorem addInto_length : ∀ (row acc : List Nat), (addInto row acc).length = max row.length acc.length
+  | [], acc => by simp [addInto]
+  | r :: rs, [] => by simp [addInto]
+  | r :: rs, x :: xs => by simp [addInto, addInto_length rs xs]
+
+theorem mulRaw_length (F : GF.GF) (b : List Nat) (hb : b ≠ []) : ∀ (a m : List Nat), mulRaw F a b = .ok m →
+    m.length = a.length + b.length - 1 := by
+  have hbl : 0 < b.length := List.length_pos_iff.mpr hb
+  intro a
+  induction a with
+  | nil => intro m h; simp only [mulRaw] at h; cases h; simp
+  | cons a0 as ih =>
+    intro m h
+    simp only [mulRaw, bind, Except.bind] at h
+    cases hrow : b.mapM (fun bj => F.mul a0 bj) with
+    | error e => simp only [hrow] at h; cases h
+    | ok row =>
+      simp only [hrow] at h
+      cases hrest : mulRaw F as b with
+      | error e => simp only [hrest] at h; cases h
+      | ok rest =>
+        simp only [hrest] at h
+        cases h
+        rw [addInto_length, mapM_length _ _ hrow, List.length_cons, ih rest hrest]
+        simp; omega
+
+/-- xor-ing a row into the accumulator commutes with the later xor of the remaining rows -/
+theorem zipWith_addInto : ∀ (row cur z : List Nat), cur.length = z.length →
+    List.zipWith (· ^^^ ·) cur (addInto row z) = List.zipWith (· ^^^ ·) (addInto row cur) z
+  | [], cur, z, _ => by simp [addInto]
+  | r :: rs, [], z, h => by
+    have : z = [] := List.eq_nil_of_length_eq_zero (by simpa using h.symm)
+    subst this; simp [addInto]
+  | r :: rs, x :: xs, [], h => by simp at h
+  | r :: rs, x :: xs, y :: ys, h => by
+    simp only [addInto, List.zipWith_cons_cons]
+    rw [zipWith_addInto rs xs ys (by simpa using h)]
+    congr 1
+    rw [← Nat.xor_assoc, Nat.xor_comm x r]
+
+theorem zipWith_zeros_right : ∀ (cur : List Nat), List.zipWith (· ^^^ ·) cur (List.replicate cur.length 0) = cur
+  | [] => rfl
+  | x :: xs => by simp [List.replicate_succ, zipWith_zeros_right xs]
+
+/-- one step of the inner loop: `product[i+j] ^= a_i * b_j` -/
+def mulInner (F : GF.GF) (ai i : Nat) (j y : Nat) (prod : List Nat) : Ctl (List Nat) ρ :=
+  match prod[i + j]? with
+  | none => .panic oob
+  | some v =>
+    match F.mul ai y with
+    | .error e => .panic e
+    | .ok m => stepC (Bits.setWord prod (i + j) (v ^^^ m))
+
+theorem iterL_mulInner (F : GF.GF) (ai i : Nat) : ∀ (bs pre cur : List Nat) (j : Nat), pre.length = i + j →
+    bs.length ≤ cur.length →
+    iterL (ρ := ρ) (mulInner F ai i) j bs (pre ++ cur) =
+      match bs.mapM (fun bj => F.mul ai bj) with
+      | .ok row => .next (pre ++ addInto row cur)
+      | .error e => .panic e := by
+  intro bs
+  induction bs with
+  | nil => intro pre cur j _ _; simp [iterL, pure, Except.pure, addInto]
+  | cons y ys ih =>
+    intro pre cur j hpre hlen
+    cases cur with
+    | nil => simp at hlen
+    | cons x xs =>
+      rw [List.mapM_cons]
+      have hget : (pre ++ x :: xs)[i + j]? = some x := by
+        rw [← hpre, List.getElem?_append_right (Nat.le_refl _), Nat.sub_self]; rfl
+      simp only [iterL, mulInner, hget, bind, Except.bind]
+      cases hm : F.mul ai y with
+      | error e => rfl
+      | ok m =>
+        have hset : Bits.setWord (pre ++ x :: xs) (i + j) (x ^^^ m) = .ok ((pre ++ [x ^^^ m]) ++ xs) := by
+          unfold Bits.setWord
+          rw [if_pos (by simp; omega)]
+          congr 1
+          rw [← hpre, List.set_append_right _ _ (Nat.le_refl _), Nat.sub_self, List.set_cons_zero]
+          simp
+        simp only [hset, stepC_ok]
+        rw [ih (pre ++ [x ^^^ m]) xs (j + 1) (by simp; omega) (by simpa using hlen)]
+        cases ys.mapM (fun bj => F.mul ai bj) with
+        | error e => rfl
+        | ok row => simp [pure, Except.pure, addInto, Nat.xor_comm m x]
+
+/-- one step of the outer loop: the whole row `a_i * b` is xor-ed into `product` at offset `i` -/
+def mulOuter (F : GF.GF) (b : List Nat) (i x : Nat) (prod : List Nat) : Ctl (List Nat) ρ :=
+  (iterL (ρ := ρ) (mulInner F x i) 0 b prod).thenC fun p => .next p
+
+theorem iterL_mulOuter (F : GF.GF) (b : List Nat) (hb : b ≠ []) : ∀ (a pre cur : List Nat), cur.length = a.length + b.length - 1 →
+    iterL (ρ := ρ) (mulOuter F b) pre.length a (pre ++ cur) =
+      match mulRaw F a b with
+      | .ok m => .next (pre ++ List.zipWith (· ^^^ ·) cur m)
+      | .error e => .panic e := by
+  have hbl : 0 < b.length := List.length_pos_iff.mpr hb
+  intro a
+  induction a with
+  | nil =>
+    intro pre cur hlen
+    simp only [iterL, mulRaw]
+    have : b.length - 1 = cur.length := by simp at hlen; omega
+    rw [this, zipWith_zeros_right]
+  | cons a0 as ih =>
+    intro pre cur hlen
+    simp only [iterL, mulOuter, mulRaw, bind, Except.bind]
+    rw [iterL_mulInner F a0 pre.length b pre cur 0 rfl (by simp at hlen; omega)]
+    cases hrow : b.mapM (fun bj => F.mul a0 bj) with
+    | error e => rfl
+    | ok row =>
+      simp only [next_thenC]
+      have hrl : row.length = b.length := mapM_length _ _ hrow
+      have hal : (addInto row cur).length = cur.length := by
+        rw [addInto_length, hrl]; simp at hlen; omega
+      cases hacc : addInto row cur with
+      | nil => rw [hacc] at hal; simp at hal hlen; omega
+      | cons c0 ctl =>
+        have := ih (pre ++ [c0]) ctl (by rw [hacc] at hal; simp at hal hlen; omega)
+        rw [List.length_append, List.length_singleton, List.append_assoc, List.singleton_append] at this
+        rw [this]
+        cases hrest : mulRaw F as b with
+        | error e => rfl
+        | ok rest =>
+          simp only []
+          have hrestl := mulRaw_length F b hb as rest hrest
+          rw [zipWith_addInto row cur (0 :: rest) (by simp [hrestl]; simp at hlen; omega), hacc]
+          simp
+
 theorem while_map' (R : τ → σ) (f : τ → Ctl τ ρ) (t : τ) {body : σ → Ctl σ ρ} {s : σ} {n : Nat}
     (hs : s = R t) (hb : ∀ t, body (R t) = mapS R (f t)) :
     whileLoop body n s = mapS R (whileLoop f n t) := by
